@@ -137,6 +137,14 @@ def narrow_good(node):
     return node.child
 
 
+def oneshot_bad(stmt, idents, starts, ends):
+    return stmt.copy(loops=zip(idents, starts, ends))
+
+
+def oneshot_good(stmt, idents, starts, ends):
+    return stmt.copy(loops=list(zip(idents, starts, ends))), sorted(zip(idents, starts))
+
+
 def mutate_bad(statement):
     loops = statement.loops
     loops.reverse()
@@ -320,6 +328,34 @@ def _narrow(f, P=None):
     return out
 
 
+_ONESHOT = ("zip", "map", "filter", "iter", "reversed", "enumerate")
+
+
+def _is_oneshot(e):
+    return isinstance(e, ast.GeneratorExp) or (
+        isinstance(e, ast.Call) and isinstance(e.func, ast.Name) and e.func.id in _ONESHOT)
+
+
+def _oneshot(f):
+    """An iterator that can be walked once, kept as a field of an object."""
+    out = []
+    for x in ast.walk(f.node):
+        if isinstance(x, ast.Call):
+            name = x.func.attr if isinstance(x.func, ast.Attribute) else (
+                x.func.id if isinstance(x.func, ast.Name) else "")
+            if name == "copy" or (name[:1].isupper() and name not in ("Block",)):
+                for k in x.keywords:
+                    if k.arg and _is_oneshot(k.value):
+                        out.append((k.value, f"{norm(x, 50)}: field '{k.arg}' is an iterator that is "
+                                             f"exhausted by its first traversal"))
+        if isinstance(x, ast.Assign) and _is_oneshot(x.value):
+            for t in x.targets:
+                if isinstance(t, ast.Attribute) and isinstance(t.value, ast.Name) and t.value.id == "self":
+                    out.append((x, f"{norm(x, 50)}: an iterator that is exhausted by its first "
+                                   f"traversal is kept on the object"))
+    return out
+
+
 _SET_GETTERS = ("get_written_variables", "get_read_variables")
 
 
@@ -475,6 +511,7 @@ LINTS = [
     ("strip", _strip, True),
     ("shared", _shared, True),
     ("narrow", _narrow, True),
+    ("oneshot", _oneshot, True),
     ("mutate", _mutate, False),     # only for modules that are handed a description
 ]
 
@@ -497,7 +534,7 @@ def lints(run, P, prop, extra_files=()):
              "a loop that is only computed in another loop; parallel sequences ordered "
              "alike; no loop variable used in a later loop; no identity comparison of values; data "
              "split by separator; union, not 'or', of variable sets; no word handed to "
-             "strip(); no attribute that the class of a narrowed value lacks; no one mutable object as the value of many keys; no "
+             "strip(); no one-shot iterator kept as a field; no attribute that the class of a narrowed value lacks; no one mutable object as the value of many keys; no "
              "argument passed under another parameter's name; no in-place change of a "
              "description handed in", minimum=3)
     files = sorted(set(anchor_files(prop)) | set(extra_files))
